@@ -187,6 +187,10 @@ def main(argv=None):
             tier_opts['timeout_ms'] = 3500
             tier_opts['strict'] = True
         os.environ['VERIF_TIER'] = a.tier
+        if a.tier == 'quick' and not a.update_baseline:
+            g = float(os.environ.get('VERIF_QUICK_WALL', '660') or 0)
+            if g > 0:
+                tier_opts['wall_guard_s'] = g
         sym_names = [n for n in names if not (a.tier == 'quick' and ex0.contracts[n].opts.get('symbolic_tier') == 'thorough')]
         reports, ex = run(mods, sym_names, procs=a.j, opts=tier_opts) if sym_names else ([], ex0)
         if prop == 'C03' and (not a.only or 'ConstTable_T4' in a.only):
@@ -214,7 +218,11 @@ def main(argv=None):
     inlined, modular = set(), set()
     solver_secs = 0.0
     backends = {}
+    not_run = []
     for r in reports:
+        if 'skipped' in r:
+            not_run.append({'contract': r['contract'], 'case': r['case'], 'why': r['skipped']})
+            continue
         if 'crash' in r:
             crashes.append({'contract': r['contract'], 'case': r['case'], 'error': r['crash'],
                             'traceback': r.get('traceback', '')[-1500:]})
@@ -443,7 +451,15 @@ def main(argv=None):
                            'open_paths': [{k: v for k, v in e.items() if k != 'cex'} for e in obligations[full]['open']]}, f, indent=1)
             violations.append({'obligation': full, 'replay': path, 'no_input': True})
             undecided.remove(full)
-    missing = sorted(l for l in (ledger | bledger) if l not in obligations)
+    skipped_cc = {(n['contract'], n['case']) for n in not_run}
+    skipped_c = {n['contract'] for n in not_run}
+
+    def _not_run(l):
+        # '<name>@<contract>[<case>]'
+        tail = l.rsplit('@', 1)[-1]
+        cn = tail.split('[', 1)[0]
+        return cn in skipped_c
+    missing = sorted(l for l in (ledger | bledger) if l not in obligations and not _not_run(l))
     # obligations that vanished (a function lost its paths / contract clause renamed) are undecided, not passes
 
     # ---- evidence
@@ -477,6 +493,7 @@ def main(argv=None):
             'discharged_on_recheck_with_6x_budget': rechecked,
             'bounded_standins': bounded + native_bounded,
             'missing_from_run': missing,
+            'not_run_quick_wall_guard': not_run,
             'unsupported': unsupported, 'crashes': crashes,
             'symbolic_attempt_incomplete': incomplete_optional,
             'known_findings_reported': known_reported,
@@ -509,6 +526,8 @@ def main(argv=None):
             o = obligations[full]
             print(f'  OPEN {full}: {len(o["open"])}/{o["paths"]} paths; ' +
                   '; '.join(f"{e['status']}/{e.get('refute_status')}/{(e.get('replay') or {}).get('verdict')}" for e in o['open'][:4]))
+    for n in not_run:
+        print(f"NOT-RUN {n['contract']}[{n['case']}]: {n['why']}")
     for k in known_reported:
         print(f"KNOWN-FINDING: property={prop} {k['finding']}: {k['what']} [{k['obligation']}]")
     for u in unsupported:
